@@ -55,7 +55,13 @@ class RandomReplacementBuffer[T](DataBuffer[T, list[T]]):
             raise ValueError(
                 "replace_probability must be between 0.0 and 1.0 inclusive"
             )
-        super().__init__(int(max_size / replace_probability))
+        # With probability 0.0 nothing is ever replaced, so any queue size works.
+        max_queue_size = (
+            max_size / replace_probability if replace_probability > 0.0 else math.inf
+        )
+        super().__init__(
+            int(max_queue_size) if math.isfinite(max_queue_size) else max_size
+        )
         self._max_size = max_size
         self._data_list: list[T] = []
 
